@@ -33,7 +33,7 @@ class Probe:
         if m == 'id':
             return args[0] if args else None
         if m == 'tok':
-            return f'tok:{k.cur_task}:{self.pid}:{nth}'
+            return f'tok:{getattr(k, "tok_label", None) if getattr(k, "tok_label", None) is not None else k.cur_task}:{self.pid}:{nth}'
         if m == 'const':
             return self.arg
         if m == 'true':
